@@ -295,6 +295,16 @@ func jsonNameClashes(src schemaSrc) map[string]bool {
 	return out
 }
 
+// didNotComplete: a generator run that ended without a verdict of the generator itself (time limit of the
+// harness, kill signal, or no output at all).
+func didNotComplete(err error, log string) bool {
+	if err == nil {
+		return false
+	}
+	e := err.Error()
+	return strings.Contains(e, "timeout after") || strings.Contains(e, "signal: killed") || strings.TrimSpace(log) == ""
+}
+
 func lastComponent(s string) string {
 	if i := strings.LastIndexByte(s, '.'); i >= 0 {
 		return s[i+1:]
@@ -555,11 +565,18 @@ func c28Case(rec *ev.Rec, t testing.TB, root string, src schemaSrc, f protoFlags
 	}
 	{
 		po2, log2, err := runProtoGen(t, root, src, f)
+		if err != nil && didNotComplete(err, log2) {
+			// killed, or over its time limit on a busy machine, without a word from the generator: the run
+			// says nothing about the generator (seen once in a thorough sweep next to two other sweeps)
+			rec.Case(key, nontrivial, append(classes, "second-run-did-not-complete")...)
+			t.Errorf("INCONCLUSIVE: the second run of the generator did not complete (%v)\n%s", err, describe(po))
+			goto mutation
+		}
 		if err != nil {
-		rec.Case(key, nontrivial, append(classes, "violation")...)
-		fatal("second run of the same command failed although the first succeeded\n%soutput:\n%s", describe(po), indent(tail(log2, 3000)))
-		return
-	}
+			rec.Case(key, nontrivial, append(classes, "violation")...)
+			fatal("second run of the same command failed although the first succeeded (%v)\n%soutput:\n%s", err, describe(po), indent(tail(log2, 3000)))
+			return
+		}
 		if d := diffRaw(po.Raw, po2.Raw); d != "" {
 			rec.Case(key, nontrivial, append(classes, "violation")...)
 			fatal("two runs of the same command differ: %s\n%s", d, describe(po))
